@@ -24,6 +24,7 @@ CHECKS = {
 }
 
 TV = "TLA+ reference semantics (Grammars.tla) evaluated by TLC on every recorded call of the real code (trace validation)"
+TVA = "TLA+ reference semantics (Automata.tla, GrammarCompose.tla) evaluated by TLC on every recorded call of the real code (trace validation)"
 CHECKS.update({
     "C01": dict(
         text=("Every recorded BoolCFGLM(cfg, alg).p_next(ctx) call (both back-ends, Boolean and Float grammars with nullary "
@@ -75,6 +76,43 @@ CHECKS.update({
               "lifting for expected length): Sat(3)/Sat(2)/Bool with arbitrary recursion, exact rationals and MaxTimes on "
               "grammars with finitely many derivations."),
         ref="DESIGN.md section 6 (C08)", technique=TV),
+    "C09": dict(
+        text=("cfg @ fst, fst @ cfg (= cfg @ fst.T), cfg @ acceptor, cfg @ string, (cfg @ fst)(ys), (cfg @ xs).treesum() and "
+              "truncate_length on random grammars x random transducers (epsilon input, deletion, insertion, eps:eps, cycles, "
+              "several initial/final states): TLC evaluates the code's output grammar on all outputs up to L against the "
+              "composition least fixed point of GrammarCompose.tla (sum over the infinitely many inputs exact in Sat(3)), and "
+              "against the literal sum over inputs where the transducer cannot delete; exact rationals on acyclic inputs."),
+        ref="DESIGN.md section 6 (C09)", technique=TVA),
+    "C10": dict(
+        text=("f @ g on random transducer pairs (epsilon on either tape, eps:eps arcs, cycles, both association branches): the "
+              "composed machine's relation is judged by TLC on all string pairs up to L against the filter-product least fixed "
+              "point of Automata.tla (each matching path pair once) and against the definition sum_y T1(x,y) T2(y,z) where one "
+              "side is acyclic; f(x,y), cross-sections, T, project, diag, from_string, from_pairs against TWeight."),
+        ref="DESIGN.md section 6 (C10)", technique=TVA),
+    "C11": dict(
+        text=("m(xs) for all strings up to L, epsremove (same weights, no epsilon arc) and total_weight on random automata with "
+              "parallel arcs, epsilon arcs and epsilon cycles, several initial/final states: judged by TLC against the path-sum "
+              "least fixed points AWeight/ATotal of Automata.tla over Sat(3)/Sat(2)/Bool (epsilon cycles exact), exact rationals "
+              "and MaxTimes."),
+        ref="DESIGN.md section 6 (C11)", technique=TVA),
+    "C12": dict(
+        text=("Union, concatenation, star, plus, reverse, rename, renumber, spawn and the constructors lift, from_string, "
+              "from_strings, zero, one (base.WFSA and field_wfsa.WFSA): the result automaton is judged by TLC on all strings up "
+              "to L against the language operations of Automata.tla (sum over splits, sum over factorisations as least "
+              "solution of X = 1 + A X, reversed string, exact listed language)."),
+        ref="DESIGN.md section 6 (C12)", technique=TVA),
+    "C13": dict(
+        text=("determinize, min_det, push, trim, trim_vals: the result is judged by TLC for equal string weights on all strings "
+              "up to the longest path (acyclic inputs over exact rationals: that is all strings) and for the structural "
+              "postconditions Deterministic, Stochastic, TrimmedA of Automata.tla; cyclic deterministic inputs and Sat(3)/Bool "
+              "for trimming."),
+        ref="DESIGN.md section 6 (C13)", technique=TVA),
+    "C17": dict(
+        text=("to_cfg (left/right; also automata whose state names are alphabet symbols) judged by Weight(G,s) = AWeight(M,s); "
+              "WFSA.to_bytes and CFG.to_bytes on alphabets mixing 1-4 byte characters and multi-character symbols judged by "
+              "ByteWeight (UTF-8 defined arithmetically in TraceAutomata.tla) on every byte string up to L over the occurring "
+              "bytes, including truncated encodings."),
+        ref="DESIGN.md section 6 (C17)", technique=TVA),
     "C20": dict(
         text=("locally_normalize on exact-rational grammars (per-head sums one, total weight one, Weight'(x) * Z = "
               "Weight(x) for all x up to L) and add_EOS over all semirings (Weight(x eos) = Weight(x), zero unless "
